@@ -1509,7 +1509,10 @@ impl WorldD {
                         out,
                         "C12",
                         "outstanding-ne-remote-voucher-supply",
-                        json!({"after_v1_migration_without_default_gas": self.v1_migrated_without_default}),
+                        json!({
+                            "after_v1_migration_without_default_gas": self.v1_migrated_without_default,
+                            "old_version_migration_rebooked_contract_surplus": self.rebooked.contains(&(ch.clone(), d.clone())),
+                        }),
                         format!("channel {} denom {}: outstanding {} but the honest remote chain holds {} vouchers", ch, d, o, v),
                     );
                     return;
